@@ -1,7 +1,9 @@
 package c06
 
 import (
+	"bytes"
 	"context"
+	"encoding/binary"
 	"fmt"
 	"io"
 	"reflect"
@@ -374,5 +376,75 @@ func (h *harness) ndbStream() {
 		}
 		m, how := mutateNdb(h.rnd, base)
 		h.opNdb(m, how)
+	}
+}
+
+// ---- ndb: XDB.Parse (Index.db; not reached by the scanners, same file as the Packages.db header code) ----
+
+// opXdb runs XDB.Parse; oracles only (no model): no panic, allocation in
+// proportion to the file.
+func (h *harness) opXdb(b []byte, how string) {
+	var out string
+	alloc := allocDuring(func() {
+		out = guard(func() string {
+			var db ndb.XDB
+			if err := db.Parse(bytes.NewReader(b)); err != nil {
+				return "err"
+			}
+			return "ok"
+		})
+	})
+	switch {
+	case out == "panic":
+		h.fail("", "xdb-panic (ndb.XDB.Parse) how="+how+" db="+hx.Hex(b))
+	case alloc > dbAllocBound(len(b)):
+		h.fail("", fmt.Sprintf("xdb-allocation-out-of-proportion: XDB.Parse allocated %d bytes for a %d-byte file how=%s db=%s", alloc, len(b), how, hx.Hex(b)))
+	}
+	h.r.Count("xdb:" + how)
+	h.r.Count("xdb-out:" + out)
+	h.r.Case("xdb "+hx.Hex(b), out == "ok")
+}
+
+func (h *harness) xdbStream() {
+	le := binary.LittleEndian
+	base := func(pages, pageSz uint32, slots int) []byte {
+		n := int(pages) * int(pageSz)
+		if n < 64 || n > 1<<16 {
+			n = 4096
+		}
+		b := make([]byte, n)
+		copy(b, "RpmX")
+		le.PutUint32(b[8:], 1)
+		le.PutUint32(b[12:], pages)
+		le.PutUint32(b[16:], pageSz)
+		for i := 0; i < slots && 32+16*i+16 <= len(b); i++ {
+			o := 32 + 16*i
+			copy(b[o:], "Slo\x00")
+			le.PutUint32(b[o+4:], uint32(1000+i))
+			le.PutUint32(b[o+8:], 1)
+			le.PutUint32(b[o+12:], 1)
+		}
+		return b
+	}
+	h.opXdb(base(1, 4096, 3), "wellformed")
+	// the witnesses of 7b... (XDB.Parse): no slot pages, a page size below the header, a 4 GiB claim
+	h.opXdb(base(0, 4096, 0)[:32], "no-slot-pages")
+	h.opXdb(base(1, 16, 0), "tiny-page")
+	h.opXdb(base(0xffff, 0xffff, 0), "huge-claim")
+	good := base(1, 4096, 3)
+	for off := 0; off < 48; off += 4 {
+		for _, v := range sweepValues {
+			if h.r.Stop() {
+				return
+			}
+			b := append([]byte(nil), good...)
+			le.PutUint32(b[off:], v)
+			h.opXdb(b, "field-sweep")
+		}
+	}
+	for i, n := 0, h.cfg.N(60, 2000); i < n && !h.r.Stop(); i++ {
+		b := base(uint32(1+h.rnd.Intn(3)), []uint32{512, 1024, 4096}[h.rnd.Intn(3)], h.rnd.Intn(6))
+		m, how := mutateBytes(h.rnd, b)
+		h.opXdb(m, how)
 	}
 }
